@@ -8,16 +8,17 @@ import (
 	"net"
 	"os"
 	"path/filepath"
+	"runtime"
+	"strconv"
 	"strings"
 	"sync"
-	"runtime"
 	"sync/atomic"
 	"syscall"
 	"time"
 
 	"github.com/coredhcp/coredhcp/config"
-	"github.com/coredhcp/coredhcp/plugins"
 	"github.com/coredhcp/coredhcp/handler"
+	"github.com/coredhcp/coredhcp/plugins"
 	"github.com/insomniacslk/dhcp/dhcpv4"
 	"github.com/insomniacslk/dhcp/dhcpv6"
 	"pgregory.net/rapid"
@@ -466,6 +467,13 @@ func ExecCfg(c CfgCase) (res core.Result) {
 				return
 			}
 		}
+		for i, w := range crowd6(&c) {
+			if v := runOne6(&c, h6, w, 1000+i); v != nil {
+				res.Viol = v
+				return
+			}
+			res.Classes = append(res.Classes[:1], "crowd-beyond-the-pool")
+		}
 		return
 	}
 	for i, w := range bat4 {
@@ -474,7 +482,68 @@ func ExecCfg(c CfgCase) (res core.Result) {
 			return
 		}
 	}
+	for i, w := range crowd4(&c) {
+		if v := runOne4(&c, h4, w, 1000+i); v != nil {
+			res.Viol = v
+			return
+		}
+		res.Classes = append(res.Classes[:1], "crowd-beyond-the-pool")
+	}
 	return
+}
+
+// crowd4: for a lease range of up to 300 addresses, one DISCOVER from each of (size + 3) further
+// clients: the requests that find the range full are part of "every request"
+func crowd4(c *CfgCase) [][]byte {
+	if c.Plugin != "range" || len(c.Args) < 3 {
+		return nil
+	}
+	a, b := net.ParseIP(c.Args[1]).To4(), net.ParseIP(c.Args[2]).To4()
+	if a == nil || b == nil {
+		return nil
+	}
+	ua := uint64(a[0])<<24 | uint64(a[1])<<16 | uint64(a[2])<<8 | uint64(a[3])
+	ub := uint64(b[0])<<24 | uint64(b[1])<<16 | uint64(b[2])<<8 | uint64(b[3])
+	if ub < ua || ub-ua+1 > 300 {
+		return nil
+	}
+	var out [][]byte
+	for k := 0; k < int(ub-ua+1)+3; k++ {
+		p := gen.Pkt4{Op: 1, HType: 1, HLen: 6, Xid: 0x601000 + uint32(k), CHAddr: fmt.Sprintf("02c190%02x%04x", k>>16, k&0xffff)}
+		mt := "01"
+		if k%3 == 2 {
+			mt = "03"
+		}
+		p.Opts = []gen.Opt4{{Code: 53, Hex: mt}, {Code: 12, Hex: gen.H([]byte(fmt.Sprintf("host%d", k)))}}
+		out = append(out, p.Bytes())
+	}
+	return out
+}
+
+// crowd6: the same for a prefix pool of up to 256 blocks
+func crowd6(c *CfgCase) [][]byte {
+	if c.Plugin != "prefix" || len(c.Args) < 2 {
+		return nil
+	}
+	_, n, err := net.ParseCIDR(c.Args[0])
+	sz, err2 := strconv.Atoi(c.Args[1])
+	if err != nil || err2 != nil {
+		return nil
+	}
+	ones, _ := n.Mask.Size()
+	if sz < ones || sz-ones > 8 {
+		return nil
+	}
+	var out [][]byte
+	for k := 0; k < (1<<uint(sz-ones))+3; k++ {
+		cid := gen.Opt6(gen.O6ClientID, gen.DUIDLL(1, []byte{0x02, 0xc1, 0x90, 0x00, byte(k >> 8), byte(k)}))
+		opts := [][]byte{cid, gen.Opt6(gen.O6ElapsedTime, []byte{0, 0}), gen.IAPD6([4]byte{0, 0, 0, 1}, 0, 0)}
+		if k%4 == 3 {
+			opts = append(opts, gen.IAPD6([4]byte{0, 0, 0, 2}, 0, 0, gen.IAPrefix6(0, 0, 0, nil)))
+		}
+		out = append(out, gen.Msg6(gen.M6Solicit, 0x601000+uint32(k), opts...))
+	}
+	return out
 }
 
 func runOne4(c *CfgCase, h handler.Handler4, wire []byte, i int) (v *core.Violation) {
